@@ -290,7 +290,9 @@ def check_result(case, files, markers, on, off, viol, rep):
                         e = ent[tl]
                         if os.path.basename(e[2] or "") != f or e[3] != line1 - 1:
                             bad("constant %d written on %s:%d is attributed to %s:%s" % (m, f, line1, os.path.basename(e[2] or ""), (e[3] + 1) if e[3] is not None else None),
-                                feats={"leading_blank": case.get("leading_blank", 0)})
+                                feats={"leading_blank": case.get("leading_blank", 0),
+                                       "user_line_carries_T2PT_marker": "T2PT" in (case.get("line_comment") or ""),
+                                       "attributed_to_same_file": os.path.basename(e[2] or "") == f})
                             break
                     else:
                         continue
@@ -312,6 +314,12 @@ def check_result(case, files, markers, on, off, viol, rep):
                     b = [x for x in b if x]
                     if a != b:
                         bad("annotated TEAL with comments removed differs from the plain TEAL")
+
+
+# Python comments put behind the marker constants of the generated files: source text that looks like an import
+# of pyteal, a compiler-internal marker, a compile call, a definition - the line is still the user's line
+LINE_COMMENTS = [None, "import pyteal", "from pyteal import Int as import_pyteal", "T2PT1", "compileTeal(program(), mode) import . pyteal",
+                 "def program(): return pyteal", None]
 
 
 def router_configs():
@@ -413,7 +421,8 @@ def run(tier):
         for idx, (size, prog) in enumerate(cases):
             blank = 3000 if idx % 11 == 3 else 0
             mod_a, mod_b = "gen_a_%d" % idx, "gen_b_%d" % idx
-            rr = render.Renderer(prog, mod_a, mod_b, leading_blank=blank, marker_base=100000)
+            comment = LINE_COMMENTS[idx % len(LINE_COMMENTS)]
+            rr = render.Renderer(prog, mod_a, mod_b, leading_blank=blank, marker_base=100000, line_comment=comment)
             try:
                 files = rr.render()
             except KeyError as e:
@@ -425,7 +434,7 @@ def run(tier):
             versions = [6, 8] if prog.get("subs") else [6]
             ann = ["off", "concise"] if tier == "quick" and idx % 5 else ["off", "concise", "full", "headers"]
             case = {"id": idx, "module": mod_a, "versions": versions, "annotate": ann, "size": size, "leading_blank": blank,
-                    "recipe": prog}
+                    "recipe": prog, "line_comment": comment}
             meta[idx] = (case, files, rr.markers)
             batches[idx % jobs].append({"id": idx, "module": mod_a, "versions": versions, "annotate": ann})
         # routers: approval and clear-state program each come with their own map
@@ -505,7 +514,8 @@ def replay(case):
             for v in viol[:5]:
                 print("still violates:", v["title"][:300])
             return bool(viol)
-        rr = render.Renderer(c["recipe"], c["module"], c["module"].replace("gen_a", "gen_b"), leading_blank=c.get("leading_blank", 0))
+        rr = render.Renderer(c["recipe"], c["module"], c["module"].replace("gen_a", "gen_b"), leading_blank=c.get("leading_blank", 0),
+                             line_comment=c.get("line_comment"))
         files = rr.render()
         for fn, text in files.items():
             open(os.path.join(scratch, fn), "w").write(text)
